@@ -33,8 +33,9 @@ const (
 
 	nanosPerSecond = 1_000_000_000
 
-	// sigABIRadix: the ABI encoder reads the amount in base 10 while validation and ToCoin
-	// read it in base 0 (Go prefix rules), so "010" is 8 for ICS-20 and 10 after an ABI trip.
+	// sigABIRadix (fixed by fixes/C35-ics20-abi-amount-radix.diff): the ABI encoder read the
+	// amount in base 10 while validation and ToCoin read it in base 0 (Go prefix rules), so
+	// "010" was 8 for ICS-20 and 10 after an ABI trip. Kept as a regression label.
 	sigABIRadix = "ics20-abi-amount-radix"
 )
 
@@ -59,7 +60,7 @@ func abiRadixShape(amount string) bool {
 
 // ics20Value checks the round trip of one ICS-20 value under every encoding. Values that
 // ICS-20 itself rejects are not in the domain.
-func ics20Value(d transfertypes.FungibleTokenPacketData, skipKnown bool, out *findings, m counters) {
+func ics20Value(d transfertypes.FungibleTokenPacketData, out *findings, m counters) {
 	if d.ValidateBasic() != nil {
 		m["ics20_value_invalid"]++
 		return
@@ -72,10 +73,6 @@ func ics20Value(d transfertypes.FungibleTokenPacketData, skipKnown bool, out *fi
 	}
 	want, _ := sdkmath.NewIntFromString(d.Amount)
 	for _, enc := range allEncs {
-		if enc == encABI && abiRadixShape(d.Amount) && skipKnown {
-			m["excluded_known"]++
-			continue
-		}
 		var bz []byte
 		var err error
 		if !noPanic(out, "transfer.MarshalPacketData/"+enc, func() string { return fmt.Sprintf("%+v", d) }, func() { bz, err = transfertypes.MarshalPacketData(d, transfertypes.V1, enc) }) {
@@ -258,12 +255,12 @@ type c35Unknown struct {
 }
 
 type c35Case struct {
-	Kind                                 string // ics20 | gmp | gmpack | attstate | attpacket | known-demo
+	Kind                                  string // ics20 | gmp | gmpack | attstate | attpacket | known-demo
 	Denom, Amount, Sender, Receiver, Memo string
-	Salt, Payload, Result                []byte
-	Height, TsSec                        uint64
-	Packets                              [][]byte // 64 bytes each: path || commitment
-	Unknown                              c35Unknown
+	Salt, Payload, Result                 []byte
+	Height, TsSec                         uint64
+	Packets                               [][]byte // 64 bytes each: path || commitment
+	Unknown                               c35Unknown
 }
 
 var textPool = []string{"cosmos1xyz", "0x000000000000000000000000000000000000dEaD", "<script>&'\"</script>", "  ", "\x00", "a\\b\"c", "日本語", "😀", "{\"forward\":{}}", " x ", "\t", "é", " ", "null", "�"}
@@ -317,7 +314,7 @@ func genAmount(t *rapid.T) string {
 	case 1:
 		return "0x" + n.Text(16)
 	case 2:
-		return "0" + n.Text(8) // octal spelling: the known ABI radix shape when it also reads as decimal
+		return "0" + n.Text(8) // octal spelling: reads differently in base 10 (the fixed ABI radix defect)
 	case 3:
 		return "0b" + n.Text(2)
 	default:
@@ -420,15 +417,15 @@ func runC35(t rapid.TB, c c35Case, rec *vx.Case) {
 	rec.Class(c.Kind)
 	switch c.Kind {
 	case "known-demo":
-		// deterministic re-demonstration of the recorded finding (minimal input)
-		ics20Value(transfertypes.FungibleTokenPacketData{Denom: "uatom", Amount: "010", Sender: "a", Receiver: "b"}, false, &out, m)
+		// deterministic regression case of the fixed ABI radix defect (minimal input)
+		ics20Value(transfertypes.FungibleTokenPacketData{Denom: "uatom", Amount: "010", Sender: "a", Receiver: "b"}, &out, m)
 	case "ics20":
 		d := transfertypes.FungibleTokenPacketData{Denom: c.Denom, Amount: c.Amount, Sender: c.Sender, Receiver: c.Receiver, Memo: c.Memo}
 		if d.ValidateBasic() != nil {
 			// amount spellings such as "0" + octal digits of a number containing 8/9 cannot occur; anything else is a generator bug
 			vx.Harnessf("generator produced an ICS-20 value that ValidateBasic rejects: %+v", d)
 		}
-		ics20Value(d, true, &out, m)
+		ics20Value(d, &out, m)
 		// protobuf with an unknown field must be rejected
 		bz, err := transfertypes.MarshalPacketData(d, transfertypes.V1, encProto)
 		if err == nil {
@@ -550,7 +547,7 @@ func c35Decode(target string, data []byte, m counters) findings {
 			return out
 		}
 		m["decode_accepted"]++
-		ics20Value(transfertypes.FungibleTokenPacketData{Denom: r.Token.Denom.Path(), Amount: r.Token.Amount, Sender: r.Sender, Receiver: r.Receiver, Memo: r.Memo}, true, &out, m)
+		ics20Value(transfertypes.FungibleTokenPacketData{Denom: r.Token.Denom.Path(), Amount: r.Token.Amount, Sender: r.Sender, Receiver: r.Receiver, Memo: r.Memo}, &out, m)
 	case strings.HasPrefix(target, "gmp/"):
 		var r *gmptypes.GMPPacketData
 		var err error
